@@ -2551,6 +2551,48 @@ fn freeze_lvalue(env: &mut FreezeEnv, lvalue: &Lvalue) -> NRes<Lvalue> {
     }
 }
 
+// A lambda parameter: the names it binds are bound in `inner` (the lambda's own scope), while default
+// values, annotations and destructuring callees are expressions of the enclosing scope `outer`.
+fn freeze_param_lvalue(
+    outer: &mut FreezeEnv,
+    inner: &mut FreezeEnv,
+    lvalue: &Lvalue,
+) -> NRes<Lvalue> {
+    match lvalue {
+        Lvalue::Annotation(x, e) => Ok(Lvalue::Annotation(
+            Box::new(freeze_param_lvalue(outer, inner, x)?),
+            opt_rc_freeze(outer, e)?,
+        )),
+        Lvalue::WithDefault(x, d) => Ok(Lvalue::WithDefault(
+            Box::new(freeze_param_lvalue(outer, inner, x)?),
+            rc_freeze(outer, d)?,
+        )),
+        Lvalue::CommaSeq(x, d) => Ok(Lvalue::CommaSeq(
+            x.iter()
+                .map(|e| Ok(Box::new(freeze_param_lvalue(outer, inner, e)?)))
+                .collect::<NRes<Vec<Box<Lvalue>>>>()?,
+            *d,
+        )),
+        Lvalue::Splat(x) => Ok(Lvalue::Splat(Box::new(freeze_param_lvalue(outer, inner, x)?))),
+        Lvalue::Or(a, b) => Ok(Lvalue::Or(
+            Box::new(freeze_param_lvalue(outer, inner, a)?),
+            Box::new(freeze_param_lvalue(outer, inner, b)?),
+        )),
+        Lvalue::And(a, b) => Ok(Lvalue::And(
+            Box::new(freeze_param_lvalue(outer, inner, a)?),
+            Box::new(freeze_param_lvalue(outer, inner, b)?),
+        )),
+        Lvalue::Destructure(f, args) => Ok(Lvalue::Destructure(
+            box_freeze(outer, f)?,
+            args.iter()
+                .map(|e| Ok(Box::new(freeze_param_lvalue(outer, inner, e)?)))
+                .collect::<NRes<Vec<Box<Lvalue>>>>()?,
+        )),
+        Lvalue::Literally(e) => Ok(Lvalue::Literally(box_freeze(outer, e)?)),
+        other => freeze_lvalue(inner, other),
+    }
+}
+
 fn freeze_ios(env: &mut FreezeEnv, ios: &IndexOrSlice) -> NRes<IndexOrSlice> {
     match ios {
         IndexOrSlice::Index(i) => Ok(IndexOrSlice::Index(box_freeze_underscore_ok(env, i)?)),
@@ -2881,8 +2923,14 @@ pub fn freeze(env: &mut FreezeEnv, expr: &LocExpr) -> NRes<LocExpr> {
                         .flat_map(|x| x.collect_identifiers(false /* declared_only */))
                         .collect::<HashSet<String>>(),
                 );
+                // parameter defaults and annotations are evaluated before any parameter is bound, so
+                // their free variables are resolved against the enclosing scope
+                let frozen_params = params
+                    .iter()
+                    .map(|p| Ok(Box::new(freeze_param_lvalue(env, &mut env2, p)?)))
+                    .collect::<NRes<Vec<Box<Lvalue>>>>()?;
                 Ok(Expr::Lambda(
-                    params.clone(),
+                    Rc::new(frozen_params),
                     Rc::new(freeze(&mut env2, body)?),
                 ))
             }
